@@ -28,7 +28,7 @@ type c14Case struct {
 	Scripted bool `json:"scripted_server,omitempty"`
 }
 
-var c14Outcomes = []string{"unary-ok", "unary-error", "unary-cancel", "unary-deadline", "stream-ok", "stream-error", "stream-cancel", "stream-deadline", "stream-server-reset", "stream-early-return", "stream-cancel-abandon"}
+var c14Outcomes = []string{"unary-ok", "unary-error", "unary-cancel", "unary-deadline", "stream-ok", "stream-error", "stream-cancel", "stream-deadline", "stream-server-reset", "stream-early-return", "stream-cancel-abandon", "stream-send-unmarshalable"}
 
 func c14Gen(tier string, seed int64, idx int) c14Case {
 	r := rng(seed, idx, "c14")
@@ -348,6 +348,20 @@ func c14One(cc grpc.ClientConnInterface, b *bed.Bed, gates *Gates, tag, outcome 
 			}
 		}()
 		svc.Invoke(m, cc, tag, []byte(tag))
+	case "stream-send-unmarshalable":
+		// the library itself aborts the stream (a message the codec cannot encode) while the caller's
+		// context stays alive; the caller does nothing more with the stream
+		kind := []string{"bidi", "client"}[k%2]
+		hrec := &SideRec{}
+		b.Impl.SetStream(tag, func(t, kd string, ss grpc.ServerStream) error {
+			return runHandlerProg(ss, t, []Op{{Op: "recvAll"}}, hrec, gates)
+		})
+		if s, err := svc.Open(context.Background(), cc, kind, tag, nil); err == nil {
+			if k >= 2 {
+				s.Send([]byte("fine"))
+			}
+			s.SendMsg("not a protobuf message")
+		}
 	default:
 		kind := []string{"bidi", "client", "server"}[k%3]
 		hrec := &SideRec{}
@@ -446,7 +460,7 @@ func init() {
 	core.Register(&core.Prop{
 		ID:    "C14",
 		Level: "exploration",
-		Rule:  "each case is one long history on ONE connection: rounds of 1..32 concurrent RPCs with outcomes drawn from {unary ok/error/cancel/deadline, stream ok/error/cancel/deadline/server-reset/early-return/cancel-with-responses-unread-and-never-touched-again} x 3 stream kinds, plus (every 4th round) opens whose transport write fails; after every round the driver waits for a provably final state and samples client registry size, server stream registry size and the number of goroutines with goat frames against the idle level. evaluations = RPCs executed; every 10th case is instead a history against a SCRIPTED server on one connection, alternating {caller cancelled / deadline fired while its send is blocked by transport back-pressure with m in 3..6 responses unread} and {first response undecodable, caller stops without cancelling, m-1 more follow}, each followed by a unary probe, sampled the same way. a case is non-trivial when all 12 outcome classes occurred in its history; distinct = distinct (parameters, seed index).",
+		Rule:  "each case is one long history on ONE connection: rounds of 1..32 concurrent RPCs with outcomes drawn from {unary ok/error/cancel/deadline, stream ok/error/cancel/deadline/server-reset/early-return/cancel-with-responses-unread-and-never-touched-again/send of an unencodable message with a live context} x 3 stream kinds, plus (every 4th round) opens whose transport write fails and a stream whose send fails once in the transport write; after every round the driver waits for a provably final state and samples client registry size, server stream registry size and the number of goroutines with goat frames against the idle level. evaluations = RPCs executed; every 10th case is instead a history against a SCRIPTED server on one connection, alternating {caller cancelled / deadline fired while its send is blocked by transport back-pressure with m in 3..6 responses unread} and {first response undecodable, caller stops without cancelling, m-1 more follow}, each followed by a unary probe, sampled the same way. a case is non-trivial when all 13 outcome classes occurred in its history; distinct = distinct (parameters, seed index).",
 		Plan:  func(tier string, seed int64) int { return tierN(tier, 80, 640) },
 		Run:   c14Run,
 		MaxStats: []string{"idle_goat_goroutines"},
